@@ -181,7 +181,24 @@ func (m *Model) Run(inputs Tensors) (Tensors, error) {
 
 	outputTensors := make(Tensors)
 	for _, outputName := range m.OutputNames() {
-		outputTensors[outputName] = tensors[outputName]
+		outputTensor := tensors[outputName]
+
+		// A parameter of the model is shared by all runs. When one ends up as an output
+		// the caller gets a copy, so that modifying the result cannot modify the model.
+		for _, parameter := range m.parameters {
+			if outputTensor != nil && outputTensor == parameter {
+				clone, ok := parameter.Clone().(tensor.Tensor)
+				if !ok {
+					return nil, ErrModel("could not copy parameter %v", outputName)
+				}
+
+				outputTensor = clone
+
+				break
+			}
+		}
+
+		outputTensors[outputName] = outputTensor
 	}
 
 	return outputTensors, nil
